@@ -1,0 +1,15 @@
+//go:build verif
+
+package hls
+
+import "github.com/q191201771/naza/pkg/filesystemlayer"
+
+// VerifSetFsl installs an (instrumented) file system layer for HLS output. Build tag `verif` only.
+func VerifSetFsl(f filesystemlayer.IFileSystemLayer) {
+	fslCtx = f
+}
+
+// VerifGetFsl returns the file system layer in use.
+func VerifGetFsl() filesystemlayer.IFileSystemLayer {
+	return fslCtx
+}
